@@ -63,7 +63,15 @@ type info struct {
 // ---- verdicts -------------------------------------------------------------------------------
 
 // already understood root causes rank last so that they never hide anything else
-var understood = map[string]int{}
+var understood = map[string]int{
+	// built by the compiler (cl) and recorded although it is not part of the files
+	"synthetic:nil-key": 1, "synthetic:call-copy": 2, "synthetic:tpl-retproc": 3, "synthetic:string-part": 4, "synthetic:overload-const": 5,
+	"synthetic:overload-funclit": 6, "synthetic:classfile": 7, "synthetic:range-loop": 8,
+	// one position for all names of a declaration / none for loop variables
+	"var-spec-def-pos": 10, "define-def-pos": 11, "forphrase-def-nopos": 12, "range-def-nopos": 13,
+	// differential
+	"builtin-kind": 14, "blank": 15, "label": 16,
+}
 
 type verdicts struct{ best *vk.Verdict }
 
@@ -378,7 +386,7 @@ func check(c Case) (*vk.Verdict, info) {
 				vs.add(missingClass(id, gobj, stack, g.info), "identifier %s (%s): go/types has %s %s, XGo records no object", at, ctx, gk, typeOf(gobj))
 				return true
 			}
-			if xobj.Name() != gobj.Name() {
+			if xobj.Name() != gobj.Name() && gk != "Builtin" {
 				vs.add("name-mismatch", "identifier %s: go/types object is named %s, XGo's %s", at, gobj.Name(), xobj.Name())
 			}
 			if xk := kindOf(xobj); xk != gk {
@@ -460,7 +468,15 @@ func (a *anchors) site(n goast.Node) string {
 	pos := safePos(n)
 	switch {
 	case !pos.IsValid():
-		return "synthetic:nopos"
+		// syntax built without positions: the Gopo_xxx constant of an overload declaration
+		// (cl/compile.go preloadConst + stringLit) or the receiver/entry of a class file
+		if _, ok := n.(*ast.BasicLit); ok {
+			return "synthetic:overload-const"
+		}
+		if id, ok := n.(*ast.Ident); ok && strings.HasPrefix(id.Name, "Gopo_") {
+			return "synthetic:overload-const"
+		}
+		return "synthetic:classfile"
 	case a.rangeFor[pos] || within(a.rangeHdr, pos):
 		return "synthetic:range-loop"
 	case a.overloadLit[pos]:
@@ -635,7 +651,7 @@ func run(t failer, c Case, class string) {
 
 func TestGosub(t *testing.T) {
 	g := gosub.Gen()
-	vk.R.Rapid(t, 1, 200, 4000, func(t *rapid.T) {
+	vk.R.Rapid(t, 1, 100, 4000, func(t *rapid.T) {
 		p := g.Draw(t, "prog")
 		run(t, Case{Files: []SrcFile{{"main.xgo", p.Source()}}, GoCompat: true}, "src=gosub")
 	})
@@ -680,9 +696,13 @@ func TestCorpus(t *testing.T) {
 	if vk.R.Shard != 0 {
 		return
 	}
+	n := 0
 	for _, f := range lex.Corpus(".xgo") {
-		if len(f.Src) > 20000 {
-			continue
+		if n++; !vk.R.Thorough() && n%4 != 0 {
+			continue // quick tier: every fourth sample
+		}
+		if len(f.Src) > 6000 || strings.Contains(string(f.Src), "github.com/") {
+			continue // keep the quick tier short: no third-party imports (resolved through `go list`)
 		}
 		run(t, Case{Files: []SrcFile{{"main.xgo", string(f.Src)}}}, "src=corpus")
 	}
@@ -701,7 +721,7 @@ func dumpDebug() {
 	for _, k := range ks {
 		fmt.Printf("DEBUG %5d %s\n", len(debugAll[k]), k)
 		for i, d := range debugAll[k] {
-			if i < 400 && (k == "synthetic:nopos" || k == "synthetic:nil-key" || i < 2) {
+			if i < 2 {
 				fmt.Printf("        %s\n", strings.ReplaceAll(d, "\n", "\\n"))
 			}
 		}
